@@ -122,7 +122,7 @@ def rand_custom_param(r, gid, name, maxdesc=255):
     return p
 
 
-LAYOUT_KNOBS = ["zeros", "param_block", "zero_prologue", "order", "last", "sparse_ids", "labels_vs_points", "empty_analog", "first_frame", "events", "trailing_fill"]
+LAYOUT_KNOBS = ["zeros", "param_block", "zero_prologue", "order", "last", "sparse_ids", "labels_vs_points", "empty_analog", "first_frame", "events", "trailing_fill", "extra_blocks", "key_words"]
 
 
 def gen_case(seed, idx, big=False, force=None, ntsc_ok=True):
@@ -162,6 +162,10 @@ def gen_case(seed, idx, big=False, force=None, ntsc_ok=True):
     L["last"] = "terminator" if "last" in chosen else "zero_pointer"
     if "trailing_fill" in chosen:
         L["trailing_fill"] = 1
+    if "extra_blocks" in chosen:
+        L["extra_param_blocks"] = r.choice([1, 2, 5])        # the block count is larger than the records need: zero blocks before the data
+    if "key_words" in chosen:
+        L["klp"], L["fbk"], L["fcp"] = r.choice([0, 12345]), r.choice([0, 3, 200]), r.choice([12345, 0])
     empty_analog = "empty_analog" in chosen
     if empty_analog:
         nch = 0
